@@ -196,6 +196,9 @@ pub fn prime_history(rng: &mut crate::rng::Rng, c: MCell) {
 
 /// as `prime_history`, asking for the relative's boundary with the given options (those of the call about to be judged)
 pub fn prime_history_with(rng: &mut crate::rng::Rng, c: MCell, segments: Option<i32>, closed: bool) {
+    if rng.below(32) == 0 {
+        failed_call_history(rng);
+    }
     if c.res < 2 {
         return;
     }
@@ -222,8 +225,105 @@ pub fn prime_history_with(rng: &mut crate::rng::Rng, c: MCell, segments: Option<
         }
     };
     let id = encode(relative);
+    if rng.chance(0.3) {
+        // revisit pattern: the cell itself, then one to four other cells, then the cell again - immediately before it is judged.
+        // A small most-recently-used store that mishandles a hit on its oldest entry answers the judged call with stale data.
+        let me = encode(c);
+        let ask = |w: u64, boundary: bool| {
+            let _ = guard(|| a5::cell_to_lonlat(w));
+            if boundary {
+                let _ = guard(|| a5::cell_to_boundary(w, Some(a5::core::cell::CellToBoundaryOptions { closed_ring: closed, segments })));
+            }
+        };
+        let both = rng.chance(0.5);
+        ask(me, both);
+        ask(id, both);
+        for _ in 0..rng.below(4) {
+            let t = rng.below(60) as u8;
+            let bits = 2 * (c.res - 1) as u32;
+            let s = if bits >= 64 { rng.next() } else { rng.next() & ((1u64 << bits) - 1) };
+            ask(encode(MCell::new(c.res, t / 5, t % 5, s)), both);
+        }
+        ask(me, both);
+        return;
+    }
     let _ = guard(|| a5::cell_to_lonlat(id));
     if rng.chance(0.6) {
         let _ = guard(|| a5::cell_to_boundary(id, Some(a5::core::cell::CellToBoundaryOptions { closed_ring: closed, segments })));
+    }
+}
+
+/// Failed-call history: a few calls that are rejected (or, on a changed tree, might not be) on the error paths of the public
+/// functions - an uncompact that fails half way through its list, hierarchy calls with resolutions on the wrong side, ids that
+/// are not cells, an out-of-range lookup. Results are ignored: a pure function leaves nothing behind when it returns an error, so
+/// the calls judged afterwards must be unaffected. Nothing here can produce more than 4^4 ids.
+pub fn failed_call_history(rng: &mut crate::rng::Rng) {
+    use crate::gen;
+    let k = 1 + rng.below(3);
+    for _ in 0..k {
+        let res = 2 + rng.below(24) as i32;
+        let good = encode(gen::random_cell(rng, res));
+        // target of the expansions below
+        let t_up = res + 1 + rng.below(3) as i32;
+        // a word with a face field beyond the last face and the resolution marker of a cell a little coarser than that target
+        let badtop = ((60 + rng.below(4)) << 58) | (1u64 << marker_bit((t_up - 1 - rng.below(3) as i32).max(0)));
+        let class = gen::HOSTILE_ID_CLASSES[rng.below(gen::HOSTILE_ID_CLASSES.len() as u64 - 1) as usize];
+        let mut bad = gen::hostile_id(rng, class);
+        if decode(bad).is_some() || t_up - alias_resolution(bad) > 6 {
+            // the hostile generator hit a real cell, or a word whose marker reads as a much coarser cell (the library sizes its
+            // output buffer from the marker before it looks at the rest): use the word that is certainly neither
+            bad = badtop;
+        }
+        match rng.below(12) {
+            0 => {
+                // fails inside the expansion, after some cells have been expanded
+                let _ = guard(|| a5::uncompact(&[good, badtop], t_up));
+            }
+            1 => {
+                let _ = guard(|| a5::uncompact(&[good, bad], t_up));
+            }
+            2 => {
+                // a cell finer than the target
+                let _ = guard(|| a5::uncompact(&[good], res - 1));
+            }
+            3 => {
+                let t = if rng.chance(0.5) { 30 + rng.below(3) as i32 } else { -2 - rng.below(3) as i32 };
+                let _ = guard(|| a5::uncompact(&[good], t));
+            }
+            4 => {
+                let _ = guard(|| a5::compact(&[good, badtop, bad]));
+            }
+            5 => {
+                // children at a coarser or out-of-range resolution
+                let t = if rng.chance(0.5) { res - 1 } else { 30 + rng.below(3) as i32 };
+                let _ = guard(|| a5::cell_to_children(good, Some(t)));
+            }
+            6 => {
+                let w = if rng.chance(0.5) { badtop } else { bad };
+                let t = (alias_resolution(w) + 1).clamp(0, MAX_RES);
+                let _ = guard(|| a5::cell_to_children(w, Some(t)));
+            }
+            7 => {
+                // parent at a finer or out-of-range resolution
+                let t = if rng.chance(0.5) { res + 1 } else { -2 - rng.below(3) as i32 };
+                let _ = guard(|| a5::cell_to_parent(good, Some(t)));
+            }
+            8 => {
+                let _ = guard(|| a5::cell_to_parent(if rng.chance(0.5) { badtop } else { bad }, Some(1)));
+            }
+            9 => {
+                let t = if rng.chance(0.5) { 30 + rng.below(3) as i32 } else { -2 - rng.below(3) as i32 };
+                let (lon, lat) = (rng.range(-180.0, 180.0), rng.range(-90.0, 90.0));
+                let _ = guard(|| a5::lonlat_to_cell(a5::LonLat::new(lon, lat), t));
+            }
+            10 => {
+                let id = if rng.chance(0.5) { badtop } else { bad };
+                let _ = guard(|| a5::cell_to_lonlat(id));
+                let _ = guard(|| a5::cell_to_boundary(id, None));
+            }
+            _ => {
+                let _ = guard(|| a5::hex_to_u64(if rng.chance(0.5) { "zz" } else { "" }));
+            }
+        }
     }
 }
